@@ -299,6 +299,10 @@ def body(max_ops, c):
         return Outcome("numpy_rejects", detail="non-finite", sample=sample)
     fgrads = rb.tape.forward([r.id for r in rin])
     gref = [adj[r.id] for r in rin]
+    gscale = max([abs(a) for a in adj] + [1.0])  # tolerances are relative to the largest total cotangent in the graph
+
+    def gclose(a, b, k=1.0):
+        return abs(a - b) <= 1e-10 * gscale * abs(k) or close(a, b)
     if not all(close(a, b) for a, b in zip(gref, fgrads[rout.id])):
         raise AssertionError("reference sweeps disagree")
     # features of the executed trace
@@ -357,7 +361,7 @@ def body(max_ops, c):
         float(y)
     except Exception as e:
         return fail("wrong_kind", f"primal value is {type(y).__name__}: {e}", bucket + "wrong_kind", sample=sample)
-    if not close(float(y), rout.v, 1e-12):
+    if not close(float(y), rout.v, 1e-9):
         return fail("primal_mismatch", f"primal {float(y)!r} vs reference {rout.v!r}", bucket + "primal_mismatch", sample=sample)
     del LOG[:]
     logs = []
@@ -371,7 +375,7 @@ def body(max_ops, c):
             gl = unpack(g)
         except Exception as e:
             return fail("wrong_kind", f"gradient is {type(g).__name__}: {e}", bucket + "wrong_kind", sample=sample)
-        if len(gl) != n_in or not all(close(a, seed_g * b) for a, b in zip(gl, gref)):
+        if len(gl) != n_in or not all(gclose(a, seed_g * b, seed_g) for a, b in zip(gl, gref)):
             return fail("wrong_value", f"vjp({seed_g}) = {gl} but reference {[seed_g * b for b in gref]}", bucket + "wrong_value", sample=sample)
         calls = [e for e in LOG if e[1] == "vjp"]
         cnt = {}
@@ -387,7 +391,7 @@ def body(max_ops, c):
                     return fail(kind, f"call {cid} arg {i}: {what} (expected {expected})", bucket + kind, sample=sample)
         for e in calls:
             eid = rb.calls[e[0]][0]
-            if not close(e[3], seed_g * adj[eid]):
+            if not gclose(e[3], seed_g * adj[eid], seed_g):
                 return fail("rule_order", f"rule of call {e[0]} saw cotangent {e[3]!r}, total is {seed_g * adj[eid]!r} "
                                           "(called before all consumers contributed, or contributions lost)", bucket + "rule_order", sample=sample)
         logs.append(sorted((e[0], e[2], round(e[3] / seed_g, 12)) for e in calls))
@@ -399,7 +403,7 @@ def body(max_ops, c):
         J = [float(mk_jvp(b)[1]) for b in basis]
     except Exception as e:
         return unexpected(e, "forward")
-    if not all(close(a, b) for a, b in zip(J, gref)):
+    if not all(gclose(a, b) for a, b in zip(J, gref)):
         return fail("wrong_value", f"forward-mode Jacobian {J} but reference {gref}", bucket + "fwd_wrong_value", sample=sample)
     return ok(nontrivial=nontrivial, key=key, labels=labels, sample=sample)
 
